@@ -65,25 +65,10 @@ theorem derive_fresh_seqCopy (h : Heap) (s : Nat) :
       ∧ ∀ c, h.alloc c → (seqCopy h s).1.get c = h.get c :=
   fresh_of_spec (seqCopy_spec (good_fresh h) s)
 
-/-- `Bar.copy()`: the bar, its `Sequence`, the views and the messages are new; nothing existing is
-    written (the constructor rewrites the *copied* sequence only). (A2) -/
-theorem derive_fresh_barCopy (o : Orc) (tag : Nat) (h : Heap) (b : Nat) :
-    FreshCells h (barCopy o tag h b).1 (reach (barCopy o tag h b).1 (.bar, (barCopy o tag h b).2))
-      ∧ ∀ c, h.alloc c → (barCopy o tag h b).1.get c = h.get c :=
-  fresh_of_spec (barCopy_spec (good_fresh h) tag b)
-
-/-- `Track.copy()`: every bar, sequence, view and message of the copy is new; nothing existing is
-    written (not even by the `Bar.to_sequence` call inside `Track.__init__`). (A2) -/
-theorem derive_fresh_trkCopy (o : Orc) (tag : Nat) (h : Heap) (t : Nat) :
-    FreshCells h (trkCopy o tag h t).1 (reach (trkCopy o tag h t).1 (.trk, (trkCopy o tag h t).2))
-      ∧ ∀ c, h.alloc c → (trkCopy o tag h t).1.get c = h.get c :=
-  fresh_of_spec (trkCopy_spec (good_fresh h) tag t)
-
-/-- `Composition.copy()`. (A2) -/
-theorem derive_fresh_cmpCopy (o : Orc) (tag : Nat) (h : Heap) (c : Nat) :
-    FreshCells h (cmpCopy o tag h c).1 (reach (cmpCopy o tag h c).1 (.cmp, (cmpCopy o tag h c).2))
-      ∧ ∀ c', h.alloc c' → (cmpCopy o tag h c).1.get c' = h.get c' :=
-  fresh_of_spec (cmpCopy_spec (good_fresh h) tag c)
+/-! `Bar.copy()`, `Track.copy()`, `Composition.copy()`: since the second repair of D37 `Bar.copy` READS the relative view of the
+    source bar's sequence (`self.sequence.rel`, bar.py:59), which regenerates a stale one — a write of the source's wrapper
+    cell.  Their freshness statements (`derive_fresh_barCopy`, `derive_fresh_trkCopy`, `derive_fresh_cmpCopy`) therefore carry the
+    allowance `derive_fresh_split` has, and are proved after the separation lemmas below. -/
 
 /-- `Sequence.sequences_split_bars(inputs, meta, quantise_note_lengths)` with either re-quantisation
     setting: every bar returned reaches only cells the call allocated, and no existing cell — in
@@ -247,6 +232,282 @@ def Sep (h : Heap) (A B : List Cell) : Prop :=
 theorem Sep.symm {h : Heap} {A B : List Cell} (hs : Sep h A B) : Sep h B A :=
   ⟨hs.2.1, hs.1, fun c hc hca => hs.2.2 c hca hc⟩
 
+theorem reachAll_sub {h : Heap} {A A' : List Cell} (hs : ∀ c ∈ A', c ∈ A) : ∀ c ∈ reachAll h A', c ∈ reachAll h A := by
+  intro c hc
+  obtain ⟨r, hr, hcr⟩ := mem_reachAll.1 hc
+  exact mem_reachAll.2 ⟨r, hs r hr, hcr⟩
+
+theorem Sep.mono {h : Heap} {A A' B B' : List Cell} (hA : ∀ c ∈ A', c ∈ A) (hB : ∀ c ∈ B', c ∈ B) (hs : Sep h A B) :
+    Sep h A' B' :=
+  ⟨fun c hc => hs.1 c (reachAll_sub hA c hc), fun c hc => hs.2.1 c (reachAll_sub hB c hc),
+    fun c hc hcb => hs.2.2 c (reachAll_sub hA c hc) (reachAll_sub hB c hcb)⟩
+
+/-- cells reachable from `A` may be held as roots of `A` as well -/
+theorem Sep.add_roots {h : Heap} {A B more : List Cell} (hs : Sep h A B) (hm : ∀ c ∈ more, c ∈ reachAll h A) :
+    Sep h (A ++ more) B := by
+  have hsub : ∀ c ∈ reachAll h (A ++ more), c ∈ reachAll h A := by
+    intro c hc
+    obtain ⟨r, hr, hcr⟩ := mem_reachAll.1 hc
+    rcases List.mem_append.1 hr with hr | hr
+    · exact mem_reachAll.2 ⟨r, hr, hcr⟩
+    · obtain ⟨x, hx, hrx⟩ := mem_reachAll.1 (hm r hr)
+      exact mem_reachAll.2 ⟨x, hx, reach_trans hrx c hcr⟩
+  exact ⟨fun c hc => hs.1 c (hsub c hc), hs.2.1, fun c hc hcb => hs.2.2 c (hsub c hc) hcb⟩
+
+/-- the separation of a source side `E` and a result side `R`, the result side made of cells that did not exist in `h0` -/
+def DSep (h0 h : Heap) (E R : List Cell) : Prop :=
+  Sep h E R ∧ (∀ k, h0.next k ≤ h.next k) ∧ ∀ c ∈ reachAll h R, ¬ h0.alloc c
+
+/-- a step that respects the region of side `A` (and may return new roots for it) keeps the separation and leaves every
+    cell of `B` unchanged (the argument of `step_sep`, for any heap transformer) -/
+theorem sep_step {h h' : Heap} {A B more : List Cell} (hsep : Sep h A B) (hsp : Spec (ReachR h A) h h')
+    (hin : ∀ c ∈ more, In (ReachR h A) h' c) :
+    Sep h' (A ++ more) B ∧ Unchanged h h' (reachAll h B) ∧ reachAll h' B = reachAll h B
+      ∧ ∀ c ∈ reachAll h' (A ++ more), In (ReachR h A) h' c := by
+  obtain ⟨hA, hB, hdis⟩ := hsep
+  have e1 : ∀ c ∈ A ++ more, In (ReachR h A) h' c := by
+    intro c hc
+    rcases List.mem_append.1 hc with hc | hc
+    · exact (in_reachR hA hc).mono hsp.pres
+    · exact hin c hc
+  have hout : ∀ c ∈ reachAll h B, ¬ ReachR h A c := by
+    rintro c hc (hw | hn)
+    · exact hdis c hw hc
+    · exact hn (hB c hc)
+  have hun : Unchanged h h' (reachAll h B) := fun c hc => hsp.pres.same c (hout c hc)
+  have hsame := reachAll_congr (h' := h') B hun
+  have hall : ∀ c ∈ reachAll h' (A ++ more), In (ReachR h A) h' c := by
+    intro c hc
+    obtain ⟨r, hr, hcr⟩ := mem_reachAll.1 hc
+    exact reach_in hsp.good (e1 r hr) c hcr
+  refine ⟨⟨?_, ?_, ?_⟩, hun, hsame, hall⟩
+  · intro c hc
+    exact (hall c hc).2
+  · intro c hc
+    rw [hsame] at hc
+    exact alloc_mono hsp.pres.le (hB c hc)
+  · intro c hc hcb
+    rw [hsame] at hcb
+    exact hout c hcb (hall c hc).1
+
+/-- a step of the SOURCE side (no new roots): e.g. the read of a relative view -/
+theorem dsep_step_src {h0 h h' : Heap} {E R : List Cell} (hd : DSep h0 h E R) (hsp : Spec (ReachR h E) h h') :
+    DSep h0 h' E R := by
+  obtain ⟨hsep, hle, hfr⟩ := hd
+  obtain ⟨s1, _, hsame, _⟩ := sep_step (more := []) hsep hsp (by simp)
+  rw [List.append_nil] at s1
+  exact ⟨s1, fun k => Nat.le_trans (hle k) (hsp.pres.le k), fun c hc => hfr c (hsame ▸ hc)⟩
+
+/-- a step of the RESULT side that returns the new roots `more`: e.g. `Track(bars)` on copied bars -/
+theorem dsep_step_res {h0 h h' : Heap} {E R more : List Cell} (hd : DSep h0 h E R) (hsp : Spec (ReachR h R) h h')
+    (hin : ∀ c ∈ more, In (ReachR h R) h' c) : DSep h0 h' E (R ++ more) := by
+  obtain ⟨hsep, hle, hfr⟩ := hd
+  obtain ⟨s1, _, _, hall⟩ := sep_step hsep.symm hsp hin
+  refine ⟨s1.symm, fun k => Nat.le_trans (hle k) (hsp.pres.le k), ?_⟩
+  intro c hc
+  rcases (hall c hc).1 with hw | hn
+  · exact hfr c hw
+  · exact fun ha => hn (alloc_mono hle ha)
+
+/-- a step that writes no cell that existed and returns a root made of new cells only: it joins the result side -/
+theorem dsep_fresh {h0 h h' : Heap} {E R : List Cell} {r : Cell} (hd : DSep h0 h E R) (hsp : Spec (Fresh h) h h')
+    (hr : In (Fresh h) h' r) : DSep h0 h' E (R ++ [r]) := by
+  obtain ⟨⟨hE, hR, hdis⟩, hle, hfr⟩ := hd
+  have hsE := reachAll_congr (h' := h') E (fun c hc => hsp.same_alloc c (hE c hc))
+  have hsR := reachAll_congr (h' := h') R (fun c hc => hsp.same_alloc c (hR c hc))
+  have hnew : ∀ c ∈ reach h' r, ¬ h.alloc c ∧ h'.alloc c := fun c hc => reach_in hsp.good hr c hc
+  have hsplit : ∀ c ∈ reachAll h' (R ++ [r]), c ∈ reachAll h R ∨ c ∈ reach h' r := by
+    intro c hc
+    obtain ⟨x, hx, hcx⟩ := mem_reachAll.1 hc
+    rcases List.mem_append.1 hx with hx | hx
+    · exact Or.inl (hsR ▸ mem_reachAll.2 ⟨x, hx, hcx⟩)
+    · simp only [List.mem_singleton] at hx
+      subst hx
+      exact Or.inr hcx
+  refine ⟨⟨?_, ?_, ?_⟩, fun k => Nat.le_trans (hle k) (hsp.pres.le k), ?_⟩
+  · intro c hc
+    rw [hsE] at hc
+    exact alloc_mono hsp.pres.le (hE c hc)
+  · intro c hc
+    rcases hsplit c hc with hc | hc
+    · exact alloc_mono hsp.pres.le (hR c hc)
+    · exact (hnew c hc).2
+  · intro c hc hcr
+    rw [hsE] at hc
+    rcases hsplit c hcr with hcr | hcr
+    · exact hdis c hc hcr
+    · exact (hnew c hcr).1 (hE c hc)
+  · intro c hc
+    rcases hsplit c hc with hc | hc
+    · exact hfr c hc
+    · exact fun ha => (hnew c hc).1 (alloc_mono hle ha)
+
+theorem DSep.mono {h0 h : Heap} {E E' R R' : List Cell} (hE : ∀ c ∈ E', c ∈ E) (hR : ∀ c ∈ R', c ∈ R) (hd : DSep h0 h E R) :
+    DSep h0 h E' R' :=
+  ⟨hd.1.mono hE hR, hd.2.1, fun c hc => hd.2.2 c (reachAll_sub hR c hc)⟩
+
+theorem DSep.add_roots {h0 h : Heap} {E R more : List Cell} (hd : DSep h0 h E R) (hm : ∀ c ∈ more, c ∈ reachAll h E) :
+    DSep h0 h (E ++ more) R :=
+  ⟨hd.1.add_roots hm, hd.2.1, hd.2.2⟩
+
+/-! ### the copies of bars, tracks and compositions: `Bar.copy()` first reads the relative view of the source bar's sequence
+    (`self.sequence.rel`, bar.py:59 — a step of the SOURCE side: a stale view is regenerated), then copies the sequence and
+    constructs the new bar (a step that writes nothing that existed) -/
+
+theorem barCopy_dsep (o : Orc) (tag : Nat) {h0 h : Heap} {E R : List Cell} (b : Nat) (hd : DSep h0 h E R)
+    (hb : (Kind.bar, b) ∈ E) :
+    DSep h0 (barCopy o tag h b).1 E (R ++ [(.bar, (barCopy o tag h b).2)]) := by
+  have hg := good_reachR h E hd.1.1
+  have hs := bar_seq_in hg (in_reachR hd.1.1 hb)
+  have s0 := readRel_spec (o := o) hg hs
+  have d0 := dsep_step_src hd s0
+  obtain ⟨s1, i1⟩ := barCopyFrom_spec (o := o) (good_fresh (readRel o h (h.bar b).seq)) tag (h.bar b).seq
+    (h.bar b).num (h.bar b).den (h.bar b).key
+  exact dsep_fresh d0 s1 i1
+
+theorem barCopies_dsep (o : Orc) : ∀ (bs : List Nat) (tag : Nat) {h0 h : Heap} {E R : List Cell}, DSep h0 h E R →
+    (∀ b ∈ bs, (Kind.bar, b) ∈ E) →
+    DSep h0 (barCopies o tag h bs).1 E (R ++ cellsOf .bar (barCopies o tag h bs).2) := by
+  intro bs
+  induction bs with
+  | nil => intro tag h0 h E R hd _; simpa [barCopies, cellsOf] using hd
+  | cons b bs ih =>
+    intro tag h0 h E R hd hb
+    have d1 := barCopy_dsep o tag b hd (hb b (by simp))
+    have d2 := ih (mix tag 3) d1 (fun b' hb' => hb b' (by simp [hb']))
+    simpa [barCopies, cellsOf, List.append_assoc] using d2
+
+theorem trkCopy_dsep (o : Orc) (tag : Nat) {h0 h : Heap} {E R : List Cell} (t : Nat) (hd : DSep h0 h E R)
+    (ht : (Kind.trk, t) ∈ E) :
+    ∃ extra, DSep h0 (trkCopy o tag h t).1 E (R ++ extra ++ [(.trk, (trkCopy o tag h t).2)]) := by
+  have hg := good_reachR h E hd.1.1
+  have hbars : ∀ c ∈ cellsOf .bar (h.trk t).bars, c ∈ reachAll h E := by
+    intro c hc
+    simp only [cellsOf, List.mem_map] at hc
+    obtain ⟨b, hb, rfl⟩ := hc
+    rcases (trk_bars_in hg (in_reachR hd.1.1 ht) b hb).1 with hw | hn
+    · exact hw
+    · exact absurd (trk_bars_in hg (in_reachR hd.1.1 ht) b hb).2 hn
+  have d1 := barCopies_dsep o (h.trk t).bars tag (hd.add_roots hbars)
+    (fun b hb => List.mem_append_right _ (by simp only [cellsOf, List.mem_map]; exact ⟨b, hb, rfl⟩))
+  have d2 : DSep h0 (barCopies o tag h (h.trk t).bars).1 E (R ++ cellsOf .bar (barCopies o tag h (h.trk t).bars).2) :=
+    d1.mono (fun c hc => List.mem_append_left _ hc) (fun _ hc => hc)
+  -- `Track(copied bars, name)`: a step of the result side
+  have hgR := good_reachR _ _ d2.1.2.1
+  obtain ⟨s3, i3⟩ := trkInit_spec (o := o) hgR (mix tag 4) (barCopies o tag h (h.trk t).bars).2 (h.trk t).name
+    (fun b hb => in_reachR d2.1.2.1 (List.mem_append_right _ (by simp only [cellsOf, List.mem_map]; exact ⟨b, hb, rfl⟩)))
+  have d3 := dsep_step_res (more := [(.trk, (trkCopy o tag h t).2)]) d2 s3
+    (by intro c hc; simp only [List.mem_singleton] at hc; subst hc; exact i3)
+  exact ⟨_, d3⟩
+
+theorem trkCopies_dsep (o : Orc) : ∀ (ts : List Nat) (tag : Nat) {h0 h : Heap} {E R : List Cell}, DSep h0 h E R →
+    (∀ t ∈ ts, (Kind.trk, t) ∈ E) →
+    ∃ R', DSep h0 (trkCopies o tag h ts).1 E R' ∧ (∀ c ∈ R, c ∈ R') ∧ ∀ c ∈ cellsOf .trk (trkCopies o tag h ts).2, c ∈ R' := by
+  intro ts
+  induction ts with
+  | nil => intro tag h0 h E R hd _; exact ⟨R, by simpa [trkCopies] using hd, fun _ hc => hc, by simp [trkCopies, cellsOf]⟩
+  | cons t ts ih =>
+    intro tag h0 h E R hd ht
+    obtain ⟨extra, d1⟩ := trkCopy_dsep o tag t hd (ht t (by simp))
+    obtain ⟨R', d2, hsub, hnew⟩ := ih (mix tag 5) d1 (fun t' ht' => ht t' (by simp [ht']))
+    refine ⟨R', by simpa [trkCopies] using d2, fun c hc => hsub c (by simp [hc]), ?_⟩
+    intro c hc
+    simp only [trkCopies, cellsOf, List.map_cons, List.mem_cons] at hc
+    rcases hc with rfl | hc
+    · exact hsub _ (by simp)
+    · exact hnew c (by simpa [cellsOf] using hc)
+
+theorem cmpCopy_dsep (o : Orc) (tag : Nat) {h0 h : Heap} {E R : List Cell} (c : Nat) (hd : DSep h0 h E R)
+    (hc : (Kind.cmp, c) ∈ E) :
+    ∃ R', DSep h0 (cmpCopy o tag h c).1 E R' ∧ (Kind.cmp, (cmpCopy o tag h c).2) ∈ R' := by
+  have hg := good_reachR h E hd.1.1
+  have htrks : ∀ x ∈ cellsOf .trk (h.cmp c), x ∈ reachAll h E := by
+    intro x hx
+    simp only [cellsOf, List.mem_map] at hx
+    obtain ⟨t, ht, rfl⟩ := hx
+    rcases (cmp_trks_in hg (in_reachR hd.1.1 hc) t ht).1 with hw | hn
+    · exact hw
+    · exact absurd (cmp_trks_in hg (in_reachR hd.1.1 hc) t ht).2 hn
+  obtain ⟨R', d1, _, hnew⟩ := trkCopies_dsep o (h.cmp c) tag (hd.add_roots htrks)
+    (fun t ht => List.mem_append_right _ (by simp only [cellsOf, List.mem_map]; exact ⟨t, ht, rfl⟩))
+  have d2 : DSep h0 (trkCopies o tag h (h.cmp c)).1 E R' := d1.mono (fun c hc => List.mem_append_left _ hc) (fun _ hc => hc)
+  have hgR := good_reachR _ _ d2.1.2.1
+  obtain ⟨s3, i3, _⟩ := newCmp_spec hgR (trkCopies o tag h (h.cmp c)).2
+    (fun t ht => in_reachR d2.1.2.1 (hnew _ (by simp only [cellsOf, List.mem_map]; exact ⟨t, ht, rfl⟩)))
+  have d3 := dsep_step_res (more := [(.cmp, (cmpCopy o tag h c).2)]) d2 s3
+    (by intro x hx; simp only [List.mem_singleton] at hx; subst hx; exact i3)
+  exact ⟨_, d3, by simp⟩
+
+/-- the start of a derivation: the caller's objects on the source side, nothing on the result side -/
+theorem dsep_start {h : Heap} {env : List Cell} (hall : AllocAll h env) : DSep h h env [] :=
+  ⟨⟨hall, by simp [AllocAll, reachAll], by simp [Disjoint, reachAll]⟩, fun _ => Nat.le_refl _, by simp [reachAll]⟩
+
+theorem reachAll_single (h : Heap) (c : Cell) : reachAll h [c] = reach h c := by simp [reachAll]
+
+/-- what a derivation that keeps `DSep` gives: the caller's objects and the new roots are without dangling identities, share no
+    cell, and the new roots reach only cells that did not exist before -/
+theorem derive_of_dsep {h h' : Heap} {env R new : List Cell} (hd : DSep h h' env R) (hnew : ∀ c ∈ new, c ∈ R) :
+    AllocAll h' env ∧ AllocAll h' new ∧ Disjoint (reachAll h' new) (reachAll h' env)
+      ∧ ∀ c ∈ reachAll h' new, ¬ h.alloc c := by
+  have hs := hd.1.mono (fun _ hc => hc) hnew
+  exact ⟨hs.1, hs.2.1, hs.symm.2.2, fun c hc => hd.2.2 c (reachAll_sub hnew c hc)⟩
+
+/-- `Bar.copy()` (second repair of D37): the bar, its `Sequence`, the views and the messages of the copy were allocated by the
+    call and none of them is reachable from the source bar afterwards; the source may be written — the relative view of its
+    sequence is regenerated if stale (`self.sequence.rel`, bar.py:59) — but only in cells reachable from it.
+    Hypothesis: the source has no dangling identity. (A2) -/
+theorem derive_fresh_barCopy (o : Orc) (tag : Nat) (h : Heap) (b : Nat) (hall : AllocAll h [(.bar, b)]) :
+    FreshCells h (barCopy o tag h b).1 (reach (barCopy o tag h b).1 (.bar, (barCopy o tag h b).2))
+      ∧ Disjoint (reach (barCopy o tag h b).1 (.bar, (barCopy o tag h b).2)) (reach (barCopy o tag h b).1 (.bar, b))
+      ∧ ∀ c, h.alloc c → c ∉ reach h (.bar, b) → (barCopy o tag h b).1.get c = h.get c := by
+  have hd := barCopy_dsep o tag b (dsep_start hall) (by simp)
+  obtain ⟨_, h2, h3, h4⟩ := derive_of_dsep (new := [(.bar, (barCopy o tag h b).2)]) hd (by simp)
+  simp only [reachAll_single] at h2 h3 h4
+  have hg := good_reachR h _ hall
+  obtain ⟨s1, _⟩ := barCopy_spec (o := o) hg tag b (bar_seq_in hg (in_reachR hall (by simp)))
+  refine ⟨fun c hc => ⟨h4 c hc, h2 c (by rw [reachAll_single]; exact hc)⟩, h3, ?_⟩
+  intro c hc hnr
+  refine s1.pres.same c ?_
+  rintro (hw | hn)
+  · rw [reachAll_single] at hw; exact hnr hw
+  · exact hn hc
+
+/-- `Track.copy()`: every bar, sequence, view and message of the copy is new and not reachable from the source track; the source
+    may be written (stale relative views of its bars' sequences are regenerated) but only in cells reachable from it. (A2) -/
+theorem derive_fresh_trkCopy (o : Orc) (tag : Nat) (h : Heap) (t : Nat) (hall : AllocAll h [(.trk, t)]) :
+    FreshCells h (trkCopy o tag h t).1 (reach (trkCopy o tag h t).1 (.trk, (trkCopy o tag h t).2))
+      ∧ Disjoint (reach (trkCopy o tag h t).1 (.trk, (trkCopy o tag h t).2)) (reach (trkCopy o tag h t).1 (.trk, t))
+      ∧ ∀ c, h.alloc c → c ∉ reach h (.trk, t) → (trkCopy o tag h t).1.get c = h.get c := by
+  obtain ⟨extra, hd⟩ := trkCopy_dsep o tag t (dsep_start hall) (by simp)
+  obtain ⟨_, h2, h3, h4⟩ := derive_of_dsep (new := [(.trk, (trkCopy o tag h t).2)]) hd (by simp)
+  simp only [reachAll_single] at h2 h3 h4
+  have hg := good_reachR h _ hall
+  obtain ⟨s1, _⟩ := trkCopy_spec (o := o) hg tag t (in_reachR hall (by simp))
+  refine ⟨fun c hc => ⟨h4 c hc, h2 c (by rw [reachAll_single]; exact hc)⟩, h3, ?_⟩
+  intro c hc hnr
+  refine s1.pres.same c ?_
+  rintro (hw | hn)
+  · rw [reachAll_single] at hw; exact hnr hw
+  · exact hn hc
+
+/-- `Composition.copy()`. (A2) -/
+theorem derive_fresh_cmpCopy (o : Orc) (tag : Nat) (h : Heap) (c : Nat) (hall : AllocAll h [(.cmp, c)]) :
+    FreshCells h (cmpCopy o tag h c).1 (reach (cmpCopy o tag h c).1 (.cmp, (cmpCopy o tag h c).2))
+      ∧ Disjoint (reach (cmpCopy o tag h c).1 (.cmp, (cmpCopy o tag h c).2)) (reach (cmpCopy o tag h c).1 (.cmp, c))
+      ∧ ∀ c', h.alloc c' → c' ∉ reach h (.cmp, c) → (cmpCopy o tag h c).1.get c' = h.get c' := by
+  obtain ⟨R', hd, hin⟩ := cmpCopy_dsep o tag c (dsep_start hall) (by simp)
+  obtain ⟨_, h2, h3, h4⟩ := derive_of_dsep (new := [(.cmp, (cmpCopy o tag h c).2)]) hd
+    (by intro x hx; simp only [List.mem_singleton] at hx; subst hx; exact hin)
+  simp only [reachAll_single] at h2 h3 h4
+  have hg := good_reachR h _ hall
+  obtain ⟨s1, _⟩ := cmpCopy_spec (o := o) hg tag c (in_reachR hall (by simp))
+  refine ⟨fun x hx => ⟨h4 x hx, h2 x (by rw [reachAll_single]; exact hx)⟩, h3, ?_⟩
+  intro x hx hnr
+  refine s1.pres.same x ?_
+  rintro (hw | hn)
+  · rw [reachAll_single] at hw; exact hnr hw
+  · exact hn hx
+
 /-- one operation of the caller holding `A` keeps the separation and leaves every cell of `B` unchanged -/
 theorem step_sep (o : Orc) (op : HOp) (h : Heap) (A B : List Cell) (hsep : Sep h A B) :
     Sep (step o op (h, A)).1 (step o op (h, A)).2 B ∧ Unchanged h (step o op (h, A)).1 (reachAll h B) := by
@@ -337,9 +598,14 @@ def isDerive : HOp → Bool
 def newRoots (o : Orc) (op : HOp) (h : Heap) (env : List Cell) : List Cell :=
   (step o op (h, env)).2.drop env.length
 
-/-- a copy-like route respects every good region with no hypothesis on its arguments -/
+/-- the copies that read their source first (`Bar.copy` reads `self.sequence.rel`; `Track.copy` / `Composition.copy` call it) -/
+def isContainerCopy : HOp → Bool
+  | .barCopy _ _ | .trkCopy _ _ | .cmpCopy _ _ => true
+  | _ => false
+
+/-- a copy-like route that does not touch its source respects every good region with no hypothesis on its arguments -/
 theorem step_copyRoute {X : Region} (o : Orc) (op : HOp) (h : Heap) (env : List Cell) (hg : Good X h)
-    (hd : isDerive op = true) (hns : ∀ i tag, op ≠ .split i tag) :
+    (hd : isDerive op = true) (hns : ∀ i tag, op ≠ .split i tag) (hnc : isContainerCopy op = false) :
     ∃ more, (step o op (h, env)).2 = env ++ more ∧ Spec X h (step o op (h, env)).1
       ∧ ∀ c ∈ more, In X (step o op (h, env)).1 c := by
   cases op <;> simp only [isDerive, Bool.false_eq_true] at hd
@@ -357,27 +623,9 @@ theorem step_copyRoute {X : Region} (o : Orc) (op : HOp) (h : Heap) (env : List 
       obtain ⟨s1, i1⟩ := seqCopy_spec (X := X) hg x
       exact ⟨_, rfl, s1, by intro c hc; simp only [List.mem_singleton] at hc; subst hc; exact i1⟩
     · exact ⟨[], by simp, Spec.refl hg, by simp⟩
-  case barCopy i tag =>
-    simp only [step]
-    split
-    · rename_i x _
-      obtain ⟨s1, i1⟩ := barCopy_spec (o := o) (X := X) hg tag x
-      exact ⟨_, rfl, s1, by intro c hc; simp only [List.mem_singleton] at hc; subst hc; exact i1⟩
-    · exact ⟨[], by simp, Spec.refl hg, by simp⟩
-  case trkCopy i tag =>
-    simp only [step]
-    split
-    · rename_i x _
-      obtain ⟨s1, i1⟩ := trkCopy_spec (o := o) (X := X) hg tag x
-      exact ⟨_, rfl, s1, by intro c hc; simp only [List.mem_singleton] at hc; subst hc; exact i1⟩
-    · exact ⟨[], by simp, Spec.refl hg, by simp⟩
-  case cmpCopy i tag =>
-    simp only [step]
-    split
-    · rename_i x _
-      obtain ⟨s1, i1⟩ := cmpCopy_spec (o := o) (X := X) hg tag x
-      exact ⟨_, rfl, s1, by intro c hc; simp only [List.mem_singleton] at hc; subst hc; exact i1⟩
-    · exact ⟨[], by simp, Spec.refl hg, by simp⟩
+  case barCopy i tag => simp [isContainerCopy] at hnc
+  case trkCopy i tag => simp [isContainerCopy] at hnc
+  case cmpCopy i tag => simp [isContainerCopy] at hnc
   case split i tag => exact absurd rfl (hns i tag)
   case splitBars is mti qnl tag fuel =>
     simp only [step]
@@ -466,8 +714,59 @@ theorem derive_sep (o : Orc) (op : HOp) (h : Heap) (env : List Cell) (hd : isDer
     · refine ⟨by simp, hall, ?_, ?_⟩
       · simp [AllocAll, reachAll]
       · simp [Disjoint, reachAll]
-  · have hns : ∀ i tag, op ≠ .split i tag := fun i tag he => hsp ⟨i, tag, he⟩
-    obtain ⟨more, hmore, s1, i1⟩ := step_copyRoute o op h env (good_fresh h) hd hns
+  · by_cases hcc : isContainerCopy op = true
+    · -- `Bar.copy` / `Track.copy` / `Composition.copy`: the source is read first (a stale relative view is regenerated), the copy
+      -- is made of new cells
+      have hnone : (step o op (h, env)).2 = env → (step o op (h, env)).1 = h →
+          (step o op (h, env)).2 = env ++ newRoots o op h env ∧ AllocAll (step o op (h, env)).1 env
+            ∧ AllocAll (step o op (h, env)).1 (newRoots o op h env)
+            ∧ Disjoint (reachAll (step o op (h, env)).1 (newRoots o op h env)) (reachAll (step o op (h, env)).1 env) := by
+        intro e1 e2
+        unfold newRoots
+        rw [e1, e2]
+        refine ⟨by simp, hall, ?_, ?_⟩
+        · simp [AllocAll, reachAll]
+        · simp [Disjoint, reachAll]
+      cases op <;> simp only [isContainerCopy, Bool.false_eq_true] at hcc
+      case barCopy i tag =>
+        cases hx : look env .bar i with
+        | none => exact hnone (by simp [step, hx]) (by simp [step, hx])
+        | some x =>
+          have hd := barCopy_dsep o tag x (dsep_start hall) (look_mem hx)
+          obtain ⟨h1, h2, h3, _⟩ := derive_of_dsep (new := [(.bar, (barCopy o tag h x).2)]) hd (by simp)
+          have e : step o (.barCopy i tag) (h, env) = ((barCopy o tag h x).1, env ++ [(.bar, (barCopy o tag h x).2)]) := by
+            simp [step, hx]
+          unfold newRoots
+          rw [e]
+          simp only [List.drop_left]
+          exact ⟨trivial, h1, h2, h3⟩
+      case trkCopy i tag =>
+        cases hx : look env .trk i with
+        | none => exact hnone (by simp [step, hx]) (by simp [step, hx])
+        | some x =>
+          obtain ⟨extra, hd⟩ := trkCopy_dsep o tag x (dsep_start hall) (look_mem hx)
+          obtain ⟨h1, h2, h3, _⟩ := derive_of_dsep (new := [(.trk, (trkCopy o tag h x).2)]) hd (by simp)
+          have e : step o (.trkCopy i tag) (h, env) = ((trkCopy o tag h x).1, env ++ [(.trk, (trkCopy o tag h x).2)]) := by
+            simp [step, hx]
+          unfold newRoots
+          rw [e]
+          simp only [List.drop_left]
+          exact ⟨trivial, h1, h2, h3⟩
+      case cmpCopy i tag =>
+        cases hx : look env .cmp i with
+        | none => exact hnone (by simp [step, hx]) (by simp [step, hx])
+        | some x =>
+          obtain ⟨R', hd, hin⟩ := cmpCopy_dsep o tag x (dsep_start hall) (look_mem hx)
+          obtain ⟨h1, h2, h3, _⟩ := derive_of_dsep (new := [(.cmp, (cmpCopy o tag h x).2)]) hd
+            (by intro c hc; simp only [List.mem_singleton] at hc; subst hc; exact hin)
+          have e : step o (.cmpCopy i tag) (h, env) = ((cmpCopy o tag h x).1, env ++ [(.cmp, (cmpCopy o tag h x).2)]) := by
+            simp [step, hx]
+          unfold newRoots
+          rw [e]
+          simp only [List.drop_left]
+          exact ⟨trivial, h1, h2, h3⟩
+    have hns : ∀ i tag, op ≠ .split i tag := fun i tag he => hsp ⟨i, tag, he⟩
+    obtain ⟨more, hmore, s1, i1⟩ := step_copyRoute o op h env (good_fresh h) hd hns (by simpa using hcc)
     have hsame := reachAll_congr (h' := (step o op (h, env)).1) env
       (fun c hc => s1.pres.same c (fun hn => hn (hall c hc)))
     have hnr : newRoots o op h env = more := by simp [newRoots, hmore]
@@ -593,30 +892,32 @@ theorem copy_equal (h : Heap) (s : Nat) (hall : AllocAll h [(.seq, s)]) (hok : S
   rfl
 
 /-- **a copied bar**: same signature and key as the original, and its sequence is what the `Bar`
-    constructor makes of a `Sequence.copy()` of the original's sequence (a value equal to it by
-    `copy_equal`).  That the constructor leaves an already-constructed bar's content as it is
+    constructor makes of a `Sequence.copy()` of the original's sequence, taken after the original's relative view has been
+    read (`self.sequence.rel`, bar.py:59: regenerated if stale) (a value equal to it by `copy_equal`).  That the constructor leaves an already-constructed bar's content as it is
     (normalise / pad / re-insert the time signature are idempotent) is a statement about VALUES and not
     part of this identity model. (A2) -/
 theorem copy_equal_bar (o : Orc) (tag : Nat) (h : Heap) (b : Nat) :
     ((barCopy o tag h b).1.bar (barCopy o tag h b).2).num = (h.bar b).num
       ∧ ((barCopy o tag h b).1.bar (barCopy o tag h b).2).den = (h.bar b).den
       ∧ ((barCopy o tag h b).1.bar (barCopy o tag h b).2).key = (h.bar b).key
-      ∧ ((barCopy o tag h b).1.bar (barCopy o tag h b).2).seq = (seqCopy h (h.bar b).seq).2
+      ∧ ((barCopy o tag h b).1.bar (barCopy o tag h b).2).seq = (seqCopy (readRel o h (h.bar b).seq) (h.bar b).seq).2
       ∧ barCopy o tag h b
-          = barInit o tag (seqCopy h (h.bar b).seq).1 (seqCopy h (h.bar b).seq).2 (h.bar b).num (h.bar b).den (h.bar b).key := by
-  obtain ⟨s1, i1⟩ := seqCopy_spec (good_fresh h) (h.bar b).seq
-  have hall : ∀ c ∈ reach (seqCopy h (h.bar b).seq).1 (.seq, (seqCopy h (h.bar b).seq).2),
-      (seqCopy h (h.bar b).seq).1.alloc c := fun c hc => (reach_in s1.good i1 c hc).2
+          = barInit o tag (seqCopy (readRel o h (h.bar b).seq) (h.bar b).seq).1 (seqCopy (readRel o h (h.bar b).seq) (h.bar b).seq).2
+              (h.bar b).num (h.bar b).den (h.bar b).key := by
+  obtain ⟨s1, i1⟩ := seqCopy_spec (good_fresh (readRel o h (h.bar b).seq)) (h.bar b).seq
+  have hall : ∀ c ∈ reach (seqCopy (readRel o h (h.bar b).seq) (h.bar b).seq).1 (.seq, (seqCopy (readRel o h (h.bar b).seq) (h.bar b).seq).2),
+      (seqCopy (readRel o h (h.bar b).seq) (h.bar b).seq).1.alloc c := fun c hc => (reach_in s1.good i1 c hc).2
   have hb := barInit_bar (o := o) tag _ _ (h.bar b).num (h.bar b).den (h.bar b).key hall
   refine ⟨?_, ?_, ?_, ?_, rfl⟩ <;> (simp only [barCopy]; rw [hb])
 
 /-- **a copied track**: same name, as many bars, each of them a `Bar.copy()` of the corresponding
-    original bar (so `copy_equal_bar` applies bar by bar). (A2) -/
-theorem copy_equal_trk (o : Orc) (tag : Nat) (h : Heap) (t : Nat) :
+    original bar (so `copy_equal_bar` applies bar by bar).  `hsrc`: the source track has no dangling identity. (A2) -/
+theorem copy_equal_trk (o : Orc) (tag : Nat) (h : Heap) (t : Nat) (hsrc : AllocAll h [(.trk, t)]) :
     ((trkCopy o tag h t).1.trk (trkCopy o tag h t).2).name = (h.trk t).name
       ∧ ((trkCopy o tag h t).1.trk (trkCopy o tag h t).2).bars = (barCopies o tag h (h.trk t).bars).2
       ∧ ((trkCopy o tag h t).1.trk (trkCopy o tag h t).2).bars.length = (h.trk t).bars.length := by
-  obtain ⟨s1, i1⟩ := barCopies_spec (o := o) (good_fresh h) tag (h.trk t).bars
+  have hg := good_reachR h _ hsrc
+  obtain ⟨s1, i1⟩ := barCopies_spec (o := o) hg tag (h.trk t).bars (trk_bars_in hg (in_reachR hsrc (by simp)))
   have hall : ∀ c ∈ reachAll (barCopies o tag h (h.trk t).bars).1
       ((barCopies o tag h (h.trk t).bars).2.map (fun b => (Kind.bar, b))), (barCopies o tag h (h.trk t).bars).1.alloc c := by
     intro c hc
